@@ -463,7 +463,7 @@ fn any_m_rt<S: Src>(s: &mut S, side: u8, kg: u8) -> M {
 /// one symbolic operation on the stated chain state (START, PRE), optionally followed by a pop
 pub fn chain_step<S: Src, const START: u8, const PRE: u8, const OP: u8, const FLAGS: u8>(s: &mut S) {
     // OP: 1..=11 push a move of that group, 20 push a UCI value, 30 pop / outcome operations
-    // FLAGS: bit 0 = follow the operation by a pop, bit 1 = compare the calculated outcome afterwards,
+    // FLAGS: bit 1 = compare the calculated outcome afterwards,
     // bit 2 = compare the repetition table with the positions on the line (always on for OP_OTHER)
     // (each board-level step costs about 100k SSA steps even on concrete data, so a harness does one thing)
     let (mut ch, mut md) = build(START, PRE);
@@ -550,17 +550,35 @@ pub fn chain_step<S: Src, const START: u8, const PRE: u8, const OP: u8, const FL
     }
     vcover!("a refused push (push harnesses)", OP == OP_OTHER || md.len() == base_len);
     vcover!("an accepted push (push harnesses)", OP == OP_OTHER || md.len() > base_len);
-    // ... followed by a pop
-    if FLAGS & 1 != 0 {
+    core::mem::forget(ch);
+}
+
+/// push then pop WITHOUT the plain-board model: the pre-state is saved and must come back.
+/// accepted push: pop returns that move, position (every field), length, repetition table size and outcome
+/// are those before; refused push: nothing changed in the first place.
+pub fn chain_push_pop<S: Src, const START: u8, const PRE: u8, const OP: u8>(s: &mut S) {
+    let (mut ch, md) = build(START, PRE);
+    let side = if md.cur().side() == Color::White { 0u8 } else { 1u8 };
+    let before = ch.last().clone();
+    let len0 = ch.len();
+    let rep0 = unsafe { REP_N };
+    let m = any_m_rt(s, side, OP);
+    vassume!(wf_ref(m));
+    let mv = mv_of(m);
+    let r = ch.push(mv);
+    vnote!("start={} prefix={} push {:?}: {:?}", START_FENS[START as usize], PRE, mv, r);
+    if r.is_ok() {
+        vassert!("an accepted push extends the move list by that move", ch.len() == len0 + 1 && ch.get(len0) == mv && unsafe { REP_N } == rep0 + 1);
         let got = ch.pop();
-        let want = md.pop();
-        vassert!("pop undoes exactly the latest accepted push", got == want);
-        vassert!("after the pop: position (every field), move list and outcome equal the model", agree(&ch, &md));
-        if FLAGS & 4 != 0 || OP == OP_OTHER {
-            vassert!("after the pop: repetition table = positions on the line", rep_agrees(&md));
-        }
-        vassert!("after the pop: the stored outcome is cleared", got.is_none() || ch.outcome().is_none());
+        vassert!("pop returns the move just pushed", got == Some(mv));
+    } else {
+        vassert!("a refused push changes nothing", ch.len() == len0 && unsafe { REP_N } == rep0);
     }
+    vassert!("after push (+ pop): the position is the previous one in every field", same_board(ch.last(), &before));
+    let pc = s.below(13);
+    vassert!("after push (+ pop): every per-piece set is the previous one", ch.last().piece(Cell::from_index(pc as usize)) == before.piece(Cell::from_index(pc as usize)));
+    vassert!("after push (+ pop): length, repetition table size and outcome are the previous ones", ch.len() == len0 && unsafe { REP_N } == rep0 && !unsafe { REP_BAD_POP } && ch.outcome().is_none());
+    vcover!("accepted and popped", r.is_ok());
     core::mem::forget(ch);
 }
 
